@@ -6,7 +6,10 @@ use std::ops::{Add, Mul, MulAssign, Neg};
 use std::sync::Arc;
 use xplore::*;
 
-pub const SCALARS: [f64; 8] = [0.0, -0.0, 1.0, -1.0, 2.0, 0.1, 1e-300, 1e300];
+pub const SCALARS: [f64; 16] = [
+    0.0, -0.0, 1.0, -1.0, 2.0, 0.1, 1e-300, 1e300,
+    1.0000000000000002, 0.9999999999999999, 1.00000000000025, -0.9999999999999, 1e5, 3e6, 1e-5, 1e-9,
+];
 const CUBE: [f64; 3] = [0.0, 1.0, -2.5];
 const SWEEP: [f64; 4] = [-0.0, 1e-300, 1e300, 5e-324];
 pub const LANE_ID: [f64; 10] = [1.5, -2.25, 3.125, -4.0625, 5.5, -6.75, 7.875, -8.9375, 9.96875, -10.984375];
@@ -66,7 +69,8 @@ fn cmp_nums(what: &str, got: &[f64], want: &[f64]) -> Result<(), (String, Value)
     }
 }
 fn close(what: &str, got: f64, want: f64, tol: f64, x: f64) -> Result<(), (String, Value)> {
-    if !want.is_finite() || !tol.is_finite() || (got - want).abs() <= tol {
+    // absolute slack of the smallest normal number: products that underflow are outside the property
+    if !want.is_finite() || !tol.is_finite() || (got - want).abs() <= tol + f64::MIN_POSITIVE {
         Ok(())
     } else {
         Err((what.to_string(), json!({"x": fj(x), "got": fj(got), "expected": fj(want), "tolerance": tol})))
@@ -221,19 +225,22 @@ pub fn cases() -> Vec<OpCase> {
     v.push(q4_sub_case());
     v.push(q4_ref_case(true));
     v.push(translate_case::<IntOfLogPoly4>(n));
-    for len in 0..=4 {
+    for len in (0..=12).chain([16, 17, 32, 33, 40]) {
         v.push(polyn_translate_case(len));
     }
     v
 }
 
+fn lane_id(i: usize) -> f64 {
+    LANE_ID[i % LANE_ID.len()] + (i / LANE_ID.len()) as f64 * 16.0
+}
 /// operand vectors for n numbers: lane identifier, cube over {0,1,-2.5}, per-lane sweeps
 fn operand(cx: &mut Cx, n: usize, cube_cap: usize) -> Vec<f64> {
     match cx.choose(3) {
-        0 => LANE_ID[..n].to_vec(),
+        0 => (0..n).map(lane_id).collect(),
         1 => {
             // cube on the first cube_cap lanes, lane identifier beyond
-            (0..n).map(|i| if i < cube_cap { CUBE[cx.choose(3)] } else { LANE_ID[i] }).collect()
+            (0..n).map(|i| if i < cube_cap { CUBE[cx.choose(3)] } else { lane_id(i) }).collect()
         }
         _ => {
             if n == 0 {
@@ -241,7 +248,7 @@ fn operand(cx: &mut Cx, n: usize, cube_cap: usize) -> Vec<f64> {
             }
             let lane = cx.choose(n);
             let val = SWEEP[cx.choose(SWEEP.len())];
-            let mut v = LANE_ID[..n].to_vec();
+            let mut v: Vec<f64> = (0..n).map(lane_id).collect();
             v[lane] = val;
             v
         }
@@ -262,16 +269,35 @@ pub fn check(thorough: bool, _seed: u64) -> Check {
             let cap = if thorough { 10 } else { 7 };
             let a = operand(cx, c.n, cap);
             let b = if c.binary {
-                match cx.choose(4) {
-                    0 => LANE_ID[..c.n].iter().map(|v| -v * 0.5).collect(),
+                match cx.choose(8) {
+                    0 => (0..c.n).map(|i| -lane_id(i) * 0.5).collect(),
                     1 => vec![1.0; c.n],
                     2 => (0..c.n).map(|i| if i % 2 == 0 { -0.0 } else { 1e300 }).collect(),
-                    _ => a.iter().map(|v| -v).collect::<Vec<f64>>(),
+                    3 => a.iter().map(|v| -v).collect::<Vec<f64>>(),
+                    // near-coincident operands: identical, one ulp apart in every number, one ulp apart in one number
+                    4 => a.clone(),
+                    5 => a.iter().map(|v| exact::succ(*v)).collect(),
+                    6 => a.iter().map(|v| -exact::pred(*v)).collect(),
+                    _ => {
+                        let lane = cx.choose(c.n.max(1));
+                        a.iter().enumerate().map(|(i, v)| if i == lane { exact::succ(*v) } else { *v }).collect()
+                    }
                 }
             } else {
                 vec![]
             };
-            let s = if c.scalar { *cx.pick(&SCALARS) } else { 0.0 };
+            // scalars: the alphabet, or values tied to the operand's additive constant (exact / one-ulp-off cancellation)
+            let s = if c.scalar {
+                let k = cx.choose(SCALARS.len() + 4);
+                if k < SCALARS.len() {
+                    SCALARS[k]
+                } else {
+                    let a0 = a.first().cloned().unwrap_or(1.0);
+                    [-a0, -exact::succ(a0), -exact::pred(a0), -(a0 + 2.0 * exact::ulp(a0))][k - SCALARS.len()]
+                }
+            } else {
+                0.0
+            };
             if a.iter().filter(|v| **v != 0.0).count() >= 2 {
                 cx.nontrivial();
             }
@@ -284,7 +310,7 @@ pub fn check(thorough: bool, _seed: u64) -> Check {
         classes: vec![],
         bounds: json!({"impls": "every operator implementation of every form (list under operator_impls)",
             "operands": format!("lane-identifier vector; cube over {{0,1,-2.5}} on the first {} numbers; every single number swept through {{-0.0,1e-300,1e300,5e-324}}", if thorough {10} else {7}),
-            "scalars": "{0,-0.0,1,-1,2,0.1,1e-300,1e300}", "second operands": "4 vectors incl. the negated first operand (exact cancellation) and a -0.0/1e300 pattern",
+            "scalars": "{0,-0.0,1,-1,2,0.1,1e-300,1e300,succ(1),pred(1),1+2.5e-13,-1+1e-13,1e5,3e6,1e-5,1e-9} and, relative to the operand's additive constant c0: -c0, -succ(c0), -pred(c0), -(c0+2ulp)", "second operands": "8 vectors incl. the negated first operand (exact cancellation), the operand itself, copies one ulp apart in every / in one number, and a -0.0/1e300 pattern",
             "oracle": "IEEE primitive on each number, compared on bits; value level through the real evaluate at 3 arguments"}),
     };
     let mut extra = serde_json::Map::new();
